@@ -1086,6 +1086,13 @@ def discr_switches_of(body, local):
                 if src is not None and src[0] == a and not [p for p in src[1] if p != "*"] and node["lhs"][0] not in aliases:
                     aliases.add(node["lhs"][0])
                     work.append(node["lhs"][0])
+            elif i == TERM and node.get("k") == "call" and "fn" in node and node.get("args") and node.get("dest") and not node["dest"][1]:
+                # an Option / Result handed through a variant-preserving adapter (`opt.cloned()`, `.as_ref()`, `.copied()`)
+                c_ = Callee(node["fn"])
+                a0_ = op_place(node["args"][0])
+                if a0_ is not None and a0_[0] == a and c_.path.split("::")[-1] in ("cloned", "copied", "clone", "as_ref", "as_mut", "as_deref", "as_deref_mut") and ("Option" in c_.path or "Result" in c_.path or "Option" in (c_.self_ty or "") or "Clone" in c_.decl_path) and node["dest"][0] not in aliases:
+                    aliases.add(node["dest"][0])
+                    work.append(node["dest"][0])
     out = []
     for b in body.reachable:
         t = body.term(b)
